@@ -724,7 +724,11 @@ def replay(rep: Report, path: str) -> int:
             occ = mcb.qubit_occupation_mps_impl(None, config=None, state=st, hamiltonian=None).numpy()
             nk = [tio.np_embed(n_well, k, tio.NOP) for k in range(n_well)]
             err = abs(occ - np.array([np.vdot(psi, nk[k] @ psi).real for k in range(n_well)])).max()
-            print(f"replay: emu-mps occupation (well-prepared part) n={n_well} err {err:.3e}", "FAILS" if err > RTOL_ORACLE else "holds now")
+            cor = mcb.correlation_matrix_mps_impl(None, config=None, state=st, hamiltonian=None).numpy()
+            err_c = abs(cor - np.array([[np.vdot(psi, nk[a] @ (nk[b] @ psi)).real for b in range(n_well)] for a in range(n_well)])).max()
+            err = max(err, err_c)
+            print(f"replay: emu-mps occupation / correlation (well-prepared part) n={n_well} err {err:.3e}",
+                  "FAILS" if err > RTOL_ORACLE else "holds now")
             bad += err > RTOL_ORACLE
         elif d.get("kind") == "mps-centre":
             dd, bonds = d["d"], d["bonds"]
